@@ -243,6 +243,9 @@ func scripted() map[string]input {
 	for name, in := range tagShapeScenarios() {
 		out[name] = in
 	}
+	for name, in := range sharedScenarios() {
+		out[name] = in
+	}
 	return out
 }
 
@@ -393,6 +396,9 @@ type tracker struct {
 	aim   *aimPlan
 	// tags of this history that look like something else (aim.go: lookalikeTags)
 	shaped []string
+	// what the plotted graphs of this history keep below their tags (shape.go)
+	victims map[string][]victim
+	plots   int
 }
 
 type aimPlan struct {
@@ -514,9 +520,17 @@ func (t *tracker) targeted() (memsim.Op, bool) {
 			tag = t.shaped[t.r.Intn(len(t.shaped))]
 		}
 	}
-	switch t.r.Intn(15) {
+	switch t.r.Intn(19) {
 	case 12, 13, 14:
 		return t.aimed(repo)
+	case 15, 18: // the bytes of a stored manifest as a blob too (shape.go)
+		return t.dualPush(repo)
+	case 16, 17: // a manifest in which digests recur, by role or by path (shape.go)
+		tg := ""
+		if t.r.Intn(2) == 0 {
+			tg = tag
+		}
+		return t.sharing(repo, tg)
 	case 0, 1: // (re)tag with a known manifest
 		return pushMan(repo, tag, m.content, m.media), true
 	case 2: // same bytes, other media type, tagged
@@ -526,6 +540,11 @@ func (t *tracker) targeted() (memsim.Op, bool) {
 	case 4, 5:
 		return memsim.Op{Kind: "DeleteManifest", Repo: repo, Digest: m.digest}, true
 	case 6, 7:
+		if t.r.Intn(3) != 0 {
+			if o, ok := t.aimAtVictim(repo); ok {
+				return o, true
+			}
+		}
 		if bl := t.g.Blobs[repo]; len(bl) > 0 {
 			return memsim.Op{Kind: "DeleteBlob", Repo: repo, Digest: bl[t.r.Intn(len(bl))]}, true
 		}
@@ -587,7 +606,7 @@ func randomInput(rnd *rand.Rand, i int) input {
 		in.Wrap = wrapKinds[1+rnd.Intn(len(wrapKinds)-1)]
 	}
 	g := memsim.NewGen(rnd, i%7 == 6)
-	t := &tracker{g: g, r: rnd, mans: map[string][]manRec{}, blobs: map[string][]byte{}}
+	t := &tracker{g: g, r: rnd, mans: map[string][]manRec{}, blobs: map[string][]byte{}, victims: map[string][]victim{}}
 	t.shaped = lookalikeTags(memsim.Sha(g.Contents[rnd.Intn(len(g.Contents))]))
 	if rnd.Intn(2) == 0 {
 		// half of the histories: two of the history's own tags (the ones every operation draws
